@@ -305,16 +305,17 @@ def EFib.handleToPayload (F : EFib) (h : Nat) : Option Nat :=
           | none => some h
   | _ => if h ≥ F.npay then none else some h
 
-/-- `setupSlice(0)` then `nextInSlice()` until it returns None, for U and C:
-    handles `h, h+1, … < getSliceMaxLength()` -/
-def scanFrom (F : EFib) (lim h : Nat) : List (Option Int × Option Nat) :=
-  if h < lim then
+/-- `setupSlice(0)` then `nextInSlice()` until it returns None, for U and C: the handles
+    `h, h+1, … < getSliceMaxLength()`; `scanN F m h` runs the `m` remaining iterations -/
+def scanN (F : EFib) : Nat → Nat → List (Option Int × Option Nat)
+  | 0, _ => []
+  | m + 1, h =>
     let c : Option Int := match F.fmt with
       | .U => some (h : Int)
       | _ => if h ≥ F.coords.length then none else some (F.coords.getD h 0)
-    (c, F.handleToPayload h) :: scanFrom F lim (h + 1)
-  else []
-termination_by lim - h
+    (c, F.handleToPayload h) :: scanN F m (h + 1)
+
+def scanFrom (F : EFib) (lim h : Nat) : List (Option Int × Option Nat) := scanN F (lim - h) h
 
 /-- `Bitvector.nextInSlice` loop: skip the clear bits, yield (position, running payload handle) -/
 def scanBits (F : EFib) : List Int → Nat → Nat → List (Option Int × Option Nat)
